@@ -63,13 +63,15 @@ def cells(tier):
                         process=proc, pid=pid))
     # D': the massless quarks of the fixed-flavour scheme FFNS are as interchangeable as those of the zero-mass scheme (d <-> s for NfFF = 3,
     # additionally u <-> c for NfFF = 4): light and total observables, incl. the heavy-quark-loop ('missing') terms from NNLO on.
-    # (FFN0 is left out: its asymptotic 'missing' term skips the last light flavour on the pinned tree -- a C08 matter, see DESIGN 8.2)
+    # The same holds in the asymptotic scheme FFN0 (on the pinned tree it did not: the asymptotic 'missing' term skipped the last light flavour --
+    # reported by these cells, reproduced through run_yadism, repaired by a fix: commit, see DESIGN 8.2).
     for kind, flav, (sch, nf, zm), proc, pto in itertools.product(["F2", "FL", "F3", "g1"], ["light", "total"],
-                                                                  [("FFNS", 3, (False, False, False)), ("FFNS", 4, (True, False, False))],
+                                                                  [("FFNS", 3, (False, False, False)), ("FFNS", 4, (True, False, False)),
+                                                                   ("FFN0", 3, (False, False, False)), ("FFN0", 4, (True, False, False))],
                                                                   ["EM", "NC"], [1, 2]):
         if proc == "EM" and kind == "F3":
             continue
-        if q and (nf + pto + len(kind) + len(flav) + len(proc) + len(sch)) % 3 and not (kind == "F2" and flav == "light" and sch == "FFNS" and pto == 2 and proc == "NC"):
+        if q and (nf + pto + len(kind) + len(flav) + len(proc) + len(sch)) % 3 and not (kind == "F2" and flav == "light" and sch in ("FFNS", "FFN0") and pto == 2 and proc == "NC"):
             continue
         out.append(dict(rel="exchange", obs=f"{kind}_{flav}", nf=nf, pto=pto, scheme=sch, ZMq=zm, process=proc, pid=11))
     return out
